@@ -713,36 +713,61 @@ def rule_list_helpers(ctx: Ctx, rule: str = "list-helpers") -> None:
     }
     for name, spec in want.items():
         fi = prog.func("lists." + name)
-        it = Interp(prog, Run([]))
-        a = VS(it.atoms.atom("list1"))
-        b = VS(it.atoms.atom("list2"))
-        v = it.call_function(fi, [a, b], {})
         construct = "%s computes the set function its name says" % name
-        if it.run.trace or not isinstance(v, VS):
-            ctx.cannot_decide(rule, fi.key, construct, "body is outside the comprehension fragment")
-            continue
-        if v.tt == spec(a.tt, b.tt):
+
+        def setup_h(it: Interp, fi=fi):
+            a = VS(it.atoms.atom("list1"))
+            b = VS(it.atoms.atom("list2"))
+            it._ab = (a, b)
+            return lambda: it.call_function(fi, [a, b], {})
+
+        # every path (a shortcut on an empty argument forks): on the rows the path leaves possible the result is the
+        # set function
+        verdict = None
+        try:
+            hpaths = explore(prog, setup_h, max_paths=64)
+        except AnalysisError as ex:
+            hpaths = []
+            verdict = ("undecided", str(ex))
+        for p in hpaths:
+            if p.terminal != "return" or not isinstance(p.value, VS):
+                verdict = verdict or ("undecided", "body is outside the comprehension fragment")
+                continue
+            A = p.atoms.masks
+            d = (p.value.tt ^ spec(A["list1"], A["list2"])) & p.allowed
+            if d:
+                verdict = ("violation", "membership function differs on {%s} (path %s)" % (p.atoms.describe(d, p.allowed), path_label(p)))
+                break
+        if verdict is None:
             ctx.ok(rule, fi.key, construct)
+        elif verdict[0] == "violation":
+            ctx.violation(rule, fi.key, construct, verdict[1], where=fi.where)
         else:
-            ctx.violation(rule, fi.key, construct, "membership function is {%s}" % it.atoms.describe(v.tt), where=fi.where)
-        # order preservation: the returned expression enumerates list1 first (comprehension over / concatenation starting with the first parameter)
+            ctx.cannot_decide(rule, fi.key, construct, verdict[1])
+            continue
+        # order preservation: every returned expression enumerates list1 first (comprehension over / concatenation
+        # starting with the first parameter, or the first parameter itself)
         rets = [n for n in ast.walk(fi.node) if isinstance(n, ast.Return)]
-        first = None
-        if len(rets) == 1:
-            e = rets[0].value
+        firsts = []
+        for r in rets:
+            e = r.value
             while isinstance(e, ast.BinOp) and isinstance(e.op, ast.Add):
                 e = e.left
             if isinstance(e, ast.ListComp) and isinstance(e.generators[0].iter, ast.Name):
-                first = e.generators[0].iter.id
+                firsts.append(e.generators[0].iter.id)
             elif isinstance(e, ast.Name):
-                first = e.id
+                firsts.append(e.id)
+            elif isinstance(e, ast.Call) and isinstance(e.func, ast.Name) and e.func.id == "list" and len(e.args) == 1 and isinstance(e.args[0], ast.Name):
+                firsts.append(e.args[0].id)
+            else:
+                firsts.append(None)
         construct = "%s keeps the order of its first argument" % name
-        if first is None:
+        if not firsts or None in firsts:
             ctx.cannot_decide(rule, fi.key, construct, "unrecognised shape")
-        elif first == fi.params[0]:
+        elif all(f == fi.params[0] for f in firsts):
             ctx.ok(rule, fi.key, construct)
         else:
-            ctx.violation(rule, fi.key, construct, "enumerates %s first" % first, where=fi.where)
+            ctx.violation(rule, fi.key, construct, "enumerates %s first" % [f for f in firsts if f != fi.params[0]][0], where=fi.where)
     # lists_equal: set equality (all paths of the helper, each under its own path condition)
     fi = prog.func("lists.lists_equal")
     construct = "lists_equal decides set equality"
